@@ -256,6 +256,7 @@ template <class I, class V> static I* from_view(V const&, size_t, alloc_t, std::
 static bool apply(op const& o) {
     const int a = o.a, b = o.b;
     shadow& sa = g_sh[a];
+    bool alloc_differs = false;
     auto need = [&](int s) { return g_sh[s].alive; };
     switch (o.kind) {
     case O_CTOR: if (need(a)) return false;
@@ -299,9 +300,12 @@ static bool apply(op const& o) {
     case O_RECREATE_FILL: if (!need(a)) return false;
         { fill_t f = make_fill(o.val); g_img[a]->recreate(gil::point_t(o.w, o.h), f, o.al); } break;
     case O_RECREATE_ALLOC: if (!need(a)) return false;
+        // with an allocator argument the documented no-op also requires alloc_in == the image's allocator
+        alloc_differs = STATEFUL && PROPAGATES_SWAP && alloc_res_of(*g_img[a]) != o.res;
         // a different allocator can only be adopted by swapping allocators (undefined for unequal sticky ones)
         g_img[a]->recreate(o.w, o.h, o.al, (PROPAGATES_SWAP ? make_alloc(o.res) : g_img[a]->allocator())); break;
     case O_RECREATE_FILL_ALLOC: if (!need(a)) return false;
+        alloc_differs = STATEFUL && PROPAGATES_SWAP && alloc_res_of(*g_img[a]) != o.res;
         { fill_t f = make_fill(o.val); g_img[a]->recreate(gil::point_t(o.w, o.h), f, o.al, (PROPAGATES_SWAP ? make_alloc(o.res) : g_img[a]->allocator())); } break;
     case O_RECREATE_SAME: if (!need(a) || !sa.align_known) return false;
         { // same or smaller dimensions with the same alignment: the storage must be reused
@@ -337,7 +341,7 @@ static bool apply(op const& o) {
     }
     // common tail of the four general recreate overloads: exact dimensions, contents per overload
     {
-        bool unchanged = (o.w == sa.w && o.h == sa.h && o.al == sa.align);
+        bool unchanged = (o.w == sa.w && o.h == sa.h && o.al == sa.align && !alloc_differs);
         if (g_img[a]->width() != o.w || g_img[a]->height() != o.h) vh::viol(key("recreate-dims"), vh::cat("requested ", o.w, "x", o.h, " got ", g_img[a]->width(), "x", g_img[a]->height(), " | history: ", g_hist));
         if (!sa.align_known) {                         // cannot tell a no-op from a re-creation: take the contents as they are
             sa.align = o.al; sa.align_known = true; sync_from_image(a); return true;
